@@ -141,6 +141,18 @@ fn gen_stream(run_seed: u64, tier: Tier) -> Stream {
         total += l;
         reqs.push(r);
     }
+    // occasionally one large in-limit store (> the connection's 4 KiB initial buffer, up to
+    // beyond 64 KiB) with the rest of the pipeline behind it: the read that completes its body
+    // usually carries bytes of the next request as well
+    if rng.chance(1, 8) {
+        knobs.item_limit = 1024 * 1024;
+        let len = *rng.pick(&[4073u32, 4100, 5000, 8192, 9000, 66_000]);
+        let mut r = SymReq::store(*rng.pick(&[op::SET, op::SET, op::ADD, op::APPEND, op::SETQ]), &keys[0], Val::Pattern { seed: rng.next() as u32, len }, 3, 0, CasSel::Zero);
+        ctr += 1;
+        r.opaque = hi | ctr;
+        let pos = rng.usize(reqs.len().max(1));
+        reqs.insert(pos.min(reqs.len()), r);
+    }
     // occasionally one oversized request (ring N only, few cuts)
     if rng.chance(1, 8) && knobs.item_limit == 1024 {
         let mut r = SymReq::store(op::SET, &keys[0], Val::Fill { byte: 0x5a, len: 1100 }, 0, 0, CasSel::Zero);
@@ -308,7 +320,7 @@ impl C09 {
                 let mut off = 0;
                 for r in &s.reqs {
                     let l = wire_len(r);
-                    for d in [1usize, 23, 24, 25, l / 2, l - 1] {
+                    for d in [0usize, 1, 23, 24, 25, l / 2, l - 1] {
                         let c = off + d.min(l - 1);
                         if c > 0 && c < total {
                             if let Some(r) = try_cuts(vec![c], out, &mut fp) {
